@@ -502,8 +502,8 @@ func RunOnce(t *testing.T, opts *Options, body func(x *Exec), prefix []int, expe
 			if r := recover(); r != nil {
 				// synctest's "deadlock: main bubble goroutine has exited but blocked goroutines remain"
 				s := fmt.Sprint(r)
-				res.Leak = true
-				if x != nil && x.Verdict == "" {
+				res.Leak = strings.Contains(s, "deadlock")
+				if x != nil && (x.Verdict == "" || !res.Leak) {
 					x.Verdict = "engine-panic: " + s
 				}
 			}
